@@ -39,7 +39,9 @@ Core ==
     <<SEnd>>, <<SStop>>, <<SRem>>,
     \* a subroutine left from inside its own loop, called from inside a loop of the caller
     <<SFor(I, LI(1), LI(2)), SGosub(L3), PA, SNext(<<>>)>>,
-    <<SFor(J, LI(1), LI(2)), SLet(A, Bin("add", A, LI(1))), SReturn>> }
+    <<SFor(J, LI(1), LI(2)), SLet(A, Bin("add", A, LI(1))), SReturn>>,
+    \* an IF whose THEN part ends the program, as (possibly) the last statement of the listing
+    <<SIf(Bin("gt", A, LI(2)), <<PS(<<66>>), SEnd>>, <<>>)>> }
 More ==
   { <<SOnGosub(LI(3), <<L3>>), PS(<<111>>)>>,       \* out of range: falls through, pushes nothing
     <<SOnGoto(Un("neg", LI(1)), <<L2>>)>>,          \* negative: ILLEGAL FUNCTION CALL
